@@ -23,9 +23,12 @@ class C31(Prop):
         note="Found and fixed: the handler used the request's own UTC offset for the file name (fix 555d196); the pre-fix "
              "model is kept as a _refuted theorem (+02:00 vs Z). Trusted: Coq kernel+VM, the driver, time.Parse (its result "
              "is shipped; well-formed texts are also re-read by a Gallina RFC 3339 reader), the zone database (offset in "
-             "force shipped per instant). Record paths are absolute and clean (filepath.Abs = identity). Without %z/%s the "
-             "listing of a segment recorded in the hour repeated at the end of DST reports the earlier of the two instants "
-             "(inherent in the name); listing and delete still agree on the file (checked). Offsets with seconds (local "
+             "force shipped per instant). Record paths are absolute and clean (filepath.Abs = identity). Lifted to any server "
+             "zone and to zone-database tables (C26's Location.lookup / time.Date model): outside the repeated hours listing, "
+             "recording and delete agree on the instant for every format (C31_agrees_with_listing_zone); inside a repeated "
+             "hour, without %z/%s, the listing reports the instant time.Date picks (Europe the later, America the earlier: "
+             "C31_listed_instant_repeated_hour_refuted) but listing and delete provably still agree on the file "
+             "(C31_agrees_on_file_zone; also checked on the real code). Offsets with seconds (local "
              "mean time before standard time) are outside RFC 3339 and excluded. Playback's use of FindSegments is covered "
              "only through the shared Decode (C26/C29).",
         technique="Coq proof (reuse of C26's token-level round trip for formats without %path; ReplaceAll-by-items argument "
